@@ -91,7 +91,7 @@ func RunIn(dir string, inv Inv) Res {
 	cmd.Stdout, cmd.Stderr = &so, &se
 	cmd.SysProcAttr = &syscall.SysProcAttr{Setpgid: true}
 	cmd.Cancel = func() error { return syscall.Kill(-cmd.Process.Pid, syscall.SIGKILL) }
-	cmd.WaitDelay = 2 * time.Second
+	cmd.WaitDelay = 15 * time.Second
 	t0 := time.Now()
 	err := cmd.Run()
 	r := Res{Stdout: so.String(), Stderr: se.String(), Dur: time.Since(t0)}
@@ -104,9 +104,11 @@ func RunIn(dir string, inv Inv) Res {
 		if ee, ok := err.(*exec.ExitError); ok {
 			r.Exit = ee.ExitCode()
 		} else if errors.Is(err, exec.ErrWaitDelay) && cmd.ProcessState != nil {
-			// the process itself has ended (a child it started - a plugin - still held the output pipes for a while):
-			// its own exit status and what it wrote are what counts
+			// the process itself has ended, but a child it started (a plugin) kept the output pipes open beyond the wait
+			// delay and the pipes were closed by force: what was captured may be incomplete, so this run decides nothing
 			r.Exit = cmd.ProcessState.ExitCode()
+			r.TimedOut = true
+			r.Stderr += "\nexec: " + err.Error()
 		} else {
 			// the harness could not run the process at all: never a verdict about octosql (checks treat it like a timeout)
 			r.Exit = -2
